@@ -131,6 +131,10 @@ def load_known():
 # deciding rule does not hold either: if the deciding rule evaluates the current source and finds the behaviour right,
 # reports and "not recognised" errors of the diagnostic rule are downgraded to notes.
 DIAGNOSTIC = {"F1": "FM", "F4": "FM", "G4": "R14", "R08": "R14", "R11u": "R14", "A1": "AM", "A2": "AM", "A3": "AM", "A4": "AM", "A5": "AM", "A6": "AM", "A7": "AM", "L3": ("L1", "L2"), "D1": "DG", "D2s": "DG", "D4": "DG", "G3": "G3e", "M1": ("L1", "L2", "PS"), "R10": ("R10e", "L2", "R12"), "H2": "HV", "H5": "HV", "H6": "HV", "H7": "HV", "G5h": "HV", "R10r": "SV", "J1": "JD", "K4": "K4e", "H4": ("HV", "JD", "H4e"), "GR": "AM", "G5": ("SV", "HV", "R13", "R14", "R11a"), "R11": ("R13", "R14", "G3e", "SV"), "G1": ("RV", "G1b", "SV"), "M1h": "HV", "K1": "K1e", "S11t": "S11e"}
+# instances of pattern rules that are reported on CORRECT code of the reference tree and overruled there by the deciding
+# rules (the save / restore idiom around a refused whole-value update: the raise after the restoring write; the retry of
+# allocate after growth).  If the deciding rule cannot be evaluated, these reports are no positive identification.
+OVERAPPROX = {("G5", "struct::Struct._update"), ("G5", "array::Array._update"), ("A6.grow-first", "context::XBuffer.allocate")}
 _decided_cache = {}
 
 
@@ -199,12 +203,17 @@ def run_rules(model, prop, tier, only=None):
             states = [_decider_state(model, d, tier) for d in decs]
             if "bad" not in states and "undecided" in states:
                 und = [d for d, st in zip(decs, states) if st == "undecided"]
+                hit = False
                 for i in cx.insts:
-                    if i.verdict == BAD:
+                    # only the reports this pattern rule is KNOWN to make on correct code (OVERAPPROX: the instances the
+                    # deciding rules overrule on the reference tree); any other report is about something new and stands
+                    if i.verdict == BAD and (i.rule, i.anchor) in OVERAPPROX:
                         i.verdict = NOTE
                         i.trivial = True
                         i.detail = f"(diagnostic for one code shape; its deciding rule {'+'.join(und)} could not be evaluated: not a verdict) " + i.detail
-                my_errors.append(f"[{rid}] the diagnostic rule reports, but the deciding rule(s) {'+'.join(und)} could not be evaluated on this tree: not decided")
+                        hit = True
+                if hit:
+                    my_errors.append(f"[{rid}] the diagnostic rule reports a construct it is known to over-approximate, and the deciding rule(s) {'+'.join(und)} could not be evaluated on this tree: not decided")
         errors.extend(my_errors)
         # one root cause over many class descriptors: keep three representatives per (rule, anchor)
         groups = {}
